@@ -35,6 +35,7 @@ type multiStep struct {
 	Keys   []string     `json:"keys,omitempty"`
 	Ranges [][2]*string `json:"ranges,omitempty"`
 	Cache  int64        `json:"cache,omitempty"`
+	Add    bool         `json:"add,omitempty"` // reopen with one more sub-store mounted (an upgrade that adds a module)
 }
 
 type wop struct {
@@ -70,6 +71,7 @@ type multiSim struct {
 	res     *core.Result
 	cfg     multiCfg
 	keys    []*types.KVStoreKey
+	grown   bool // a sub-store was added after the first commit
 	tkey    *types.TransientStoreKey
 	nodes   []*msNode
 	work    []map[string][]byte
@@ -206,7 +208,11 @@ func opKind(d string) string { // normalised subject from a transcript line: "ge
 func (s *multiSim) checkStores(oracle string, ms types.MultiStore, model []map[string][]byte, st *multiStep) {
 	for i, k := range s.keys {
 		got := transcript(ms.GetKVStore(k), st.Keys, st.Ranges)
-		want := modelTranscript(model[i], st.Keys, st.Ranges)
+		m := map[string][]byte{}
+		if i < len(model) {
+			m = model[i]
+		}
+		want := modelTranscript(m, st.Keys, st.Ranges)
 		if d := firstDiff(got, want); d != "" {
 			s.violate(oracle, opKind(d), fmt.Sprintf("store %s: %s", k.Name(), d))
 			return
@@ -263,8 +269,16 @@ func (s *multiSim) exec(st *multiStep) {
 	case "reopen":
 		s.res.Fault("reopen")
 		s.views = nil
+		added := false
+		if st.Add && s.prop == "C04" && len(s.keys) < 8 {
+			// a sub-store that starts its own version history while the multistore is at version N
+			s.keys = append(s.keys, types.NewKVStoreKey(fmt.Sprintf("s%d", len(s.keys))))
+			added = true
+			s.grown = true
+			s.res.Fault("reopen_with_added_substore")
+		}
 		for i, n := range s.nodes {
-			if s.prop == "C04" && i > 0 && len(s.pending) == 0 {
+			if s.prop == "C04" && i > 0 && len(s.pending) == 0 && !added {
 				// the twin is not reopened unless it has uncommitted writes to forget
 				continue
 			}
@@ -282,6 +296,9 @@ func (s *multiSim) exec(st *multiStep) {
 		s.pending = nil
 		if s.latest > 0 {
 			s.work = copyStores(s.book[s.latest].stores)
+			for len(s.work) < len(s.keys) {
+				s.work = append(s.work, map[string][]byte{})
+			}
 		} else {
 			s.work = make([]map[string][]byte, len(s.keys))
 			for i := range s.work {
@@ -302,6 +319,22 @@ func (s *multiSim) exec(st *multiStep) {
 			if s.prop == "C04" {
 				vs := s.versions()
 				for _, ver := range vs {
+					if len(s.book[ver].stores) < len(s.keys) {
+						continue // saved before the newest sub-store existed: not a version of the present store set
+					}
+					if s.grown {
+						// sub-stores with version histories of different length: reopen at that version
+						// proper (a fresh mount and LoadVersion); the lazy historical loader addresses every
+						// sub-store by the multistore's version number and is not judged here
+						fresh := s.mount(n0.db, n0.cacheOn, n0.iavlCache)
+						if err := fresh.LoadVersion(ver); err != nil {
+							s.violate("reopen-version-unreadable", "multistore", fmt.Sprintf("version %d: %v", ver, err))
+							continue
+						}
+						s.checkStores("reopen-version-contents", fresh, s.book[ver].stores, st)
+						s.res.Probe("reopen_at_version_after_substore_added")
+						continue
+					}
 					lz, err := n0.rs.LoadLazyVersion(ver)
 					if err != nil {
 						s.violate("reopen-version-unreadable", "multistore", fmt.Sprintf("version %d: %v", ver, err))
@@ -445,6 +478,9 @@ func (s *multiSim) gen(r *core.Rand) *multiStep {
 		return &multiStep{Op: "commit"}
 	case 3:
 		st := &multiStep{Op: "reopen", Cache: []int64{1, 2, 8, 10000}[r.Intn(4)]}
+		if s.prop == "C04" && s.latest > 0 && len(s.pending) == 0 && r.Chance(0.25) {
+			st.Add = true
+		}
 		s.genReads(r, st)
 		return st
 	case 4:
